@@ -4,15 +4,22 @@
   `Gen.webServer_createRouter_routes`, `Gen.Exchange`, `Gen.tokensHandler`, `Gen.LegacyVerifyClient`,
   `Gen.ValidateGrantType`, `Gen.legacyGrantGuards`, `Gen.VerifyCodeChallenge`, `Gen.dynamicIssuer`, …).
 
+  REGENERATED as well (Generated/DiscoveryServe.lean, namespace GenServe): the issuer strategies (`StaticIssuer`,
+  `issuerFromForwardedOrHost`, `hostFromForwarded`), the issuer interceptor (`IssuerInterceptor.Handler`, `setIssuerCtx`,
+  `ContextWithIssuer`, `IssuerFromContext`) and the path of a discovery request through both routers (`discoveryHandler`, `Discover`,
+  `simpleHandler`, `LegacyServer.Discovery`, `Response.writeOut`, the two document builders with their context parameter).
+
   Hand-written here (tied to the code by the C19 correspondence stream only):
-  * which functions the two routers plug together (`discovery`, `routes`), the issuer interceptor
-    (`requestIssuer`: static / request host / Forwarded header),
+  * which functions the two routers plug together (`discovery`, `routes`, `discoveryRoute`, `serve`, `issuerFn`; the expressions they
+    stand for are regenerated facts pinned by `C19.serve_wiring_pinned`),
   * the skeleton of `webServer.withClient` (authenticate, check the client's registered grants, delegate),
   * request objects: processed iff `RequestObjectSupported` (pkg/op/auth_request.go `Authorize`,
-    `LegacyServer.VerifyAuthRequest`).
+    `LegacyServer.VerifyAuthRequest`),
+  * tokens carry `IssuerFromContext` of the context the interceptor made (`modelVisit`).
 -/
 import OidcModel.Spec.C19
 import OidcModel.Generated.Discovery
+import OidcModel.Generated.DiscoveryServe
 import OidcModel.Generated.TokenEndpoint
 
 namespace Disco
@@ -179,22 +186,66 @@ def pkceAnswer (m : String) : String :=
 def requestObjectAnswer (c : Configuration) : String :=
   if c.RequestObjectSupported then "honoured" else "not_supported"
 
-/-! ### the issuer interceptor -/
+/-! ### the issuer strategies and the issuer interceptor (REGENERATED: Generated/DiscoveryServe.lean) -/
 
-def requestIssuer (s : IssuerStrategy) (insecure : Bool) (host : String) (forwarded : Option String) : String :=
+/-- what the request path asks the outside world -/
+structure ServeOracles where
+  /-- `net/url.Parse` -/
+  urlParse : String → Go.R DiscURL
+  /-- `httpforwarded.ParseParameter(name, values)` -/
+  parseFwd : String → List String → Go.R (List String)
+
+/-- the `func(insecure bool) (IssuerFromRequest, error)` the integrator hands to `op.NewProvider`, applied to the provider's insecure
+    flag as `NewProvider` does. Hand-written here: which constructor belongs to which strategy and the header list of
+    `IssuerFromHost` (none) / `IssuerFromForwardedOrHost` ("Forwarded" or the custom names) — their source text is pinned
+    (`serve_wiring_pinned`). The three functions themselves are the regenerated ones. -/
+def issuerFn (o : ServeOracles) (s : IssuerStrategy) (custom : Option (List String)) (insecure : Bool) : Go.R (DiscReq → String) :=
   match s with
-  | .static iss => iss
-  | .fromHost path => Gen.dynamicIssuer 0 host path insecure
-  | .fromForwarded path => Gen.dynamicIssuer 0 (forwarded.getD host) path insecure
+  | .static iss => GenServe.StaticIssuer 0 o.urlParse iss insecure
+  | .fromHost path => GenServe.issuerFromForwardedOrHost 0 o.urlParse o.parseFwd path (s.issuerConfig custom) insecure
+  | .fromForwarded path => GenServe.issuerFromForwardedOrHost 0 o.urlParse o.parseFwd path (s.issuerConfig custom) insecure
 
-/-- provider construction with an issuer strategy (`StaticIssuer` / `issuerFromForwardedOrHost`) -/
+/-- a request that carries at most one `Forwarded` header whose `host` parameter is `fwd` … -/
+def requestOf (host : String) (fwd : Option String) : DiscReq :=
+  { Host := host, headers := match fwd with | some h => [("Forwarded", [h])] | none => [] }
+/-- … read by a header parser that finds exactly that host -/
+def fwdOracle : String → List String → Go.R (List String) := fun _ vs => .ok vs
+
+/-- a constructed issuer function applied to a request (`none`: the provider could not be constructed) -/
+def applyIssuer (x : Go.R (DiscReq → String)) (r : DiscReq) : Option String :=
+  match x with
+  | .ok f => some (f r)
+  | .error _ => none
+
+/-- the issuer established for a request -/
+def requestIssuer (parse : String → Go.R DiscURL) (s : IssuerStrategy) (insecure : Bool) (host : String) (fwd : Option String) : Option String :=
+  applyIssuer (issuerFn ⟨parse, fwdOracle⟩ s none insecure) (requestOf host fwd)
+
+/-- provider construction with an issuer strategy -/
 def constructIssuer (parse : String → Go.R DiscURL) (s : IssuerStrategy) (insecure : Bool) : Go.R Unit :=
-  match s with
-  | .static iss => Gen.ValidateIssuer 0 parse iss insecure
-  | .fromHost path | .fromForwarded path =>
-    match parse path with
-    | .error _ => .error "ErrInvalidIssuerURL"
-    | .ok u => Gen.ValidateIssuerPath 0 u
+  match issuerFn ⟨parse, fwdOracle⟩ s none insecure with
+  | .ok _ => .ok ()
+  | .error e => .error e
+
+/-! ### serving one discovery request -/
+
+/-- the handler registered for `oidc.DiscoveryEndpoint`: `discoveryHandler(o, o.Storage())` on the Provider router,
+    `simpleHandler(s, s.server.Discovery)` with `server = LegacyServer{provider, endpoints}` on the Server router
+    (which expression is registered is a regenerated fact, `GenServe.wiring_*`) -/
+def discoveryRoute (i : Input) : DiscHandler :=
+  match i.cfg.router with
+  | .provider => ⟨GenServe.discoveryHandler 0 i.conf i.conf.Storage⟩
+  | .legacy => ⟨GenServe.simpleHandler 0 () (GenServe.LegacyServer_Discovery 0 { provider := i.conf, endpoints := i.cfg.endpoints })⟩
+
+/-- `intercept(issuerFromRequest)` (no custom interceptors) around a handler: `NewIssuerInterceptor(f).Handler(h)`, started on an
+    empty response -/
+def serve (f : DiscReq → String) (h : DiscHandler) (r : DiscReq) : DiscW :=
+  GenServe.IssuerInterceptor_Handler 0 ⟨f⟩ h [] r
+
+/-- the document a response consists of (`none`: not exactly one 200 JSON document) -/
+def servedDoc : DiscW → Option DiscoveryConfiguration
+  | [.json d] => some d
+  | _ => none
 
 /-! ### what the model predicts an outside observer sees -/
 
@@ -212,5 +263,22 @@ def modelObs (i : Input) : C19.Obs :=
     tokenIssuer := some i.issuer,
     pkce := d.CodeChallengeMethodsSupported.map (fun m => (m, if i.codeFlowPossible then pkceAnswer m else "na")),
     requestObject := if i.cfg.endpoints.Authorization.isNil then "na" else requestObjectAnswer i.conf }
+
+/-! ### one visit of a sequence -/
+
+/-- what `hostFromForwarded` finds when the forwarding headers name `fwd` -/
+def fwdResult : Option String → String × Bool
+  | some h => (h, true)
+  | none => ("", false)
+
+/-- the model's prediction for one visit: the document is what the discovery route writes for this request behind the issuer
+    interceptor; every token issued through the same interceptor carries `IssuerFromContext` of a context made by
+    `ContextWithIssuer(…, f r)` (hand-written: that the token constructors read the issuer from the request context) -/
+def modelVisit (i : Input) (f : DiscReq → String) (r : DiscReq) (tokenKinds : List String) : C19.VisitObs :=
+  match servedDoc (serve f (discoveryRoute i) r) with
+  | some d =>
+    { status := 200, doc := d,
+      tokenIssuers := tokenKinds.map fun k => (k, GenServe.IssuerFromContext 0 (GenServe.ContextWithIssuer 0 r.Context (f r))) }
+  | none => { status := 500 }
 
 end Disco
